@@ -26,7 +26,8 @@ func newPebbleIterator(db *PebbleEng, opts IteratorOpts) (*pebbleIterator, error
 	if opts.Type&common.RangeROpen <= 0 && upperBound != nil {
 		// range right not open, we need inclusive the max,
 		// however upperBound is exclusive
-		upperBound = append(upperBound, 0)
+		// (copy: never write into the spare capacity of the caller's Max)
+		upperBound = append(upperBound[:len(upperBound):len(upperBound)], 0)
 	}
 
 	opt := &pebble.IterOptions{}
